@@ -322,6 +322,8 @@ def _step(obj, model, op, kind, six, decls):
             if smchart and a not in six:
                 try:
                     obj[a] = v
+                    if a.upper() in six:
+                        model[a.upper()] = v      # accepted: a case-normalised store into the fixed field
                 except Exception:
                     pass
                 # refusal, or a case-normalised store: either way no new key
